@@ -210,6 +210,18 @@ pub struct Decoded {
     pub ht_distinct_pages: u64,
     pub ln_accounting: (u64, u64, u64, u64), // live, free items, list pages, bump-1
     pub bbn_accounting: (u64, u64, u64, u64),
+    // what the image references (for C17)
+    pub ln_live: BTreeSet<u32>,
+    pub ln_free_items: BTreeSet<u32>,
+    pub ln_list_pages: BTreeSet<u32>,
+    pub bbn_live: BTreeSet<u32>,
+    pub bbn_free_items: BTreeSet<u32>,
+    pub bbn_list_pages: BTreeSet<u32>,
+    pub ln_len_pages: u32,
+    pub bbn_len_pages: u32,
+    /// ht page numbers (file pages) of full buckets
+    pub ht_full_pages: BTreeSet<u64>,
+    pub ht_meta_pages: u64,
 }
 
 impl Decoded {
@@ -459,6 +471,14 @@ pub fn decode_beatree<K: HashKind>(dir: &Path, d: &mut Decoded) {
     let ln_live: BTreeSet<u32> = ln_used.keys().copied().collect();
     d.ln_accounting = account("ln", meta.ln_bump, &ln_live, &ln_fl, &mut issues);
     d.bbn_accounting = account("bbn", meta.bbn_bump, &bbn_live, &bbn_fl, &mut issues);
+    d.ln_free_items = ln_fl.items.iter().copied().collect();
+    d.ln_list_pages = ln_fl.list_pages.iter().copied().collect();
+    d.bbn_free_items = bbn_fl.items.iter().copied().collect();
+    d.bbn_list_pages = bbn_fl.list_pages.iter().copied().collect();
+    d.ln_live = ln_live;
+    d.bbn_live = bbn_live;
+    d.ln_len_pages = ln.len_pages;
+    d.bbn_len_pages = bbn.len_pages;
     d.kv = kv;
     d.issues.extend(issues);
 }
@@ -568,6 +588,7 @@ pub fn decode_bitbox(dir: &Path, d: &mut Decoded, trie: &RefTrie) {
     }
     let mut stored: HashMap<[u8; 32], (u64, Vec<u8>)> = HashMap::new();
     let mut issues = Vec::new();
+    d.ht_meta_pages = meta_pages;
     for b in 0..n {
         let m = map[b as usize];
         if m == 0 {
@@ -582,6 +603,7 @@ pub fn decode_bitbox(dir: &Path, d: &mut Decoded, trie: &RefTrie) {
             continue;
         }
         d.ht_full += 1;
+        d.ht_full_pages.insert(meta_pages + b);
         let Ok(page) = ht.page((meta_pages + b) as u32) else { continue };
         let label: [u8; 32] = page[PAGE - 32..].try_into().unwrap();
         match path_of_label(&label) {
